@@ -69,7 +69,7 @@ FEATURE = {  # construct a program must contain to count as non-trivial for the 
 }
 
 HOSTILE_SHARE = 0.2
-HOSTILE_FAMILIES = ['candidate_none', 'switch_unknown_label']
+HOSTILE_FAMILIES = ['candidate_none', 'switch_unknown_label', 'candidate_shared']
 
 
 class Acc:
